@@ -490,6 +490,10 @@ C17_UNITS = [
     iounit("read_noclose", chunks=[2, 3], buf=8, close=False),
     iounit("read_empty_then_close", chunks=[], buf=4, close=True, n=100),
     iounit("read_paused_writer", chunks=[2, 2, 1], buf=3, close=True, pauses=[0, 2, 1]),
+    iounit("tcp_read_3_2_buf4", chunks=[3, 2], buf=4, close=True, transport="tcp"),
+    iounit("tcp_read_1x3_buf2", chunks=[1, 1, 1], buf=2, close=True, transport="tcp"),
+    iounit("write_unix_40k", role="write", write_total=40000, peer_chunk=8192, n=150),
+    iounit("write_tcp_6m", role="write", write_total=6_000_000, peer_chunk=400_000, transport="tcp", n=80),
     bulkunit("bulk_unix", "unix", conns=3, size=600_000, thread_reader=True),
     bulkunit("bulk_tcp", "tcp", conns=3, size=900_000, thread_reader=True),
     bulkunit("bulk_tcp_many", "tcp", conns=12, size=120_000),
@@ -504,6 +508,9 @@ C18_UNITS = [
     iounit("stale_timer", chunks=[2, 2], buf=4, close=True, read_timeout=3, pauses=[1, 4], n=250),
     iounit("data_in_time", chunks=[1, 1, 1], buf=2, close=True, read_timeout=5, pauses=[1, 1, 1], n=250),
     iounit("cancel_blocked_read", chunks=[3, 2], buf=2, close=False, victims=["r"]),
+    iounit("cancel_idle_read", chunks=[], buf=2, close=False, victims=["r"], n=200),
+    iounit("cancel_idle_read_tcp", chunks=[], buf=2, close=False, victims=["r"], transport="tcp", n=150),
+    iounit("tcp_timeout_then_data", chunks=[2, 2], buf=4, close=True, read_timeout=2, pauses=[0, 3], transport="tcp", n=150),
     iounit("cancel_timed_read", chunks=[2], buf=2, close=False, victims=["r"], read_timeout=4, pauses=[2], n=200),
 ]
 PROPS["C18"] = dict(assumptions=["virtual clock for the io timers; the fd is served by one selector"], units=C18_UNITS)
